@@ -3,4 +3,4 @@
 TIER=${1:-quick}
 cd "$(dirname "$0")/.."
 ids=$(python3 -c "import json; print(' '.join(c['property_id'] for c in json.load(open('MANIFEST.json'))['checks']))")
-echo $ids | tr ' ' '\n' | xargs -P 3 -I{} sh -c 'out=$(bin/check {} --tier '"$TIER"' 2>&1); rc=$?; echo "{} rc=$rc $(echo "$out" | tail -1 | cut -c1-150)"'
+echo $ids | tr ' ' '\n' | xargs -P ${PAR:-3} -I{} sh -c 'out=$(bin/check {} --tier '"$TIER"' 2>&1); rc=$?; echo "{} rc=$rc $(echo "$out" | tail -1 | cut -c1-150)"'
